@@ -9,6 +9,7 @@ import (
 	"math/rand"
 	"net/url"
 	"strings"
+	"sync/atomic"
 	"testing"
 	"time"
 
@@ -18,6 +19,8 @@ import (
 )
 
 const stream = "c13"
+
+var clientErrors, requestsSent int64
 
 // cookieInfo is the ground truth about the credential a request carries.
 type cookieInfo struct {
@@ -95,6 +98,9 @@ func TestProp(t *testing.T) {
 		runConfig(rep, env, ci, perConfig, only)
 	}
 	rep.Extra("wall_workload_s", time.Since(start).Seconds())
+	if e, n := atomic.LoadInt64(&clientErrors), atomic.LoadInt64(&requestsSent); e*50 > n {
+		rep.Inconclusive(fmt.Sprintf("%d of %d client requests failed at the transport level (nothing observed for them)", e, n))
+	}
 	floors := map[string]int{
 		"hits_via_simple_route": 20, "hits_via_rewrite_route": 20, "exact_beats_regexp": 10, "first_of_several_patterns": 10,
 		"status_421_unroutable": 20, "cross_refused_simple_to_simple": 5, "cross_refused_within_one_rewrite_route": 5,
@@ -119,6 +125,7 @@ type runner struct {
 }
 
 func runConfig(rep *vh.Report, env vh.Env, ci, perConfig, only int) {
+	t0 := time.Now()
 	crng := vh.CaseRNG(env.Seed, "c13-config", ci)
 	c := genConfig(crng, ci)
 	defer c.close()
@@ -133,6 +140,9 @@ func runConfig(rep *vh.Report, env vh.Env, ci, perConfig, only int) {
 	}
 	defer ps.Close()
 	rep.Count("route_sets", 1)
+	rep.Count("setup_ms", int(time.Since(t0).Milliseconds()))
+	t1 := time.Now()
+	defer func() { rep.Count("cases_ms", int(time.Since(t1).Milliseconds())) }()
 	rep.Count("upstreams_generated", len(c.ups))
 	for _, u := range c.ups {
 		rep.Count("upstream_flavour_"+u.flavour, 1)
@@ -195,6 +205,7 @@ func (rn *runner) send(p probe, cookies []string) (*sut.Resp, []sut.Hit) {
 	}
 	rs := rn.ps.Client.Do(rq)
 	rn.rep.Count("requests", 1)
+	atomic.AddInt64(&requestsSent, 1)
 	return rs, rn.collectHits(rs.ID)
 }
 
@@ -401,6 +412,7 @@ func (rn *runner) judge(i int, step string, p probe, ck cookieInfo, rs *sut.Resp
 
 	if rs.Err != nil {
 		rep.Count("client_errors", 1)
+		atomic.AddInt64(&clientErrors, 1)
 		if len(hits) == 0 {
 			return
 		}
